@@ -418,8 +418,11 @@ void fiber_fd_closed(int fd) {
     return;
   }
 
-  assert(fd >= 0);
-  assert(fd < max_fd);
+  if (fd < 0 || fd >= max_fd) {
+    // close() of an invalid descriptor: nothing can be waiting on it, and it
+    // must not be used as an index into wait_info
+    return;
+  }
   fd_wait_info_t* const info = &wait_info[fd];
   fiber_spinlock_lock(&info->spinlock);
 #if defined(__linux__)
